@@ -9,6 +9,7 @@ from engine import astq as Q
 from engine.cfg import walk_noscope
 from engine.pysrc import Repo, F, dotted, src, calls_in
 from engine.effects import Effects, fmt as fmt_effect
+from engine import alpha
 from engine.report import AnalysisError
 
 DAE = "andes/variables/dae.py"
@@ -70,7 +71,7 @@ def rule_copy(ctx, repo):
     bad = []
     n = 0
     for a in walk_noscope(fn):
-        if isinstance(a, ast.Assign) and isinstance(a.targets[0], ast.Subscript) and (dotted(a.targets[0].value) or "").startswith("ts._"):
+        if isinstance(a, ast.Assign) and isinstance(a.targets[0], ast.Subscript) and (dotted(a.targets[0].value) or "").startswith(alpha.resolve_dotted("ts._", fn)):
             n += 1
             v = a.value
             fresh = (isinstance(v, ast.Call) and dotted(v.func) in ("np.array", "np.copy")) or \
@@ -83,7 +84,8 @@ def rule_copy(ctx, repo):
     ctx.check(n >= 4 and not bad, "C15.copy", "DAE.store/rows", "%d stored rows are fresh arrays keyed by t" % n,
               "stored row aliases live solver memory (later steps would rewrite history): %s" % bad, s.W())
     # channel -> storage pairing
-    pair = {"ts._xs": "self.x", "ts._ys": "self.y", "ts._fs": "self.f", "ts._hs": "self.h", "ts._is": "self.i"}
+    pair = {alpha.resolve_dotted(k_, fn): v_ for k_, v_ in
+            {"ts._xs": "self.x", "ts._ys": "self.y", "ts._fs": "self.f", "ts._hs": "self.h", "ts._is": "self.i"}.items()}
     bad = []
     for a in walk_noscope(fn):
         if isinstance(a, ast.Assign) and isinstance(a.targets[0], ast.Subscript):
